@@ -18,3 +18,17 @@ Import ListNotations.
 Open Scope string_scope.
 """
 open(os.path.join(V, "coq/Model/TemplatesRef.v"), "w").write(head + body)
+
+# same for the pipeline skeletons
+src = open(os.path.join(V, "coq/Extracted/PipelineFacts.v")).read()
+body = src.split("Open Scope string_scope.\n", 1)[1]
+body = re.sub(r"Definition sk_", "Definition ref_sk_", body).replace("Definition event_names", "Definition ref_event_names")
+head = """(* Control-flow skeletons of the pipeline functions (event sends, calls, error checks, defers, returns, in
+   source order) that Model/Pipeline.v was transcribed from, frozen by gen/freeze_templates.py.
+   Extracted/PipelineFacts.v is regenerated from /repo on every run; the property files prove
+   extracted = reference. *)
+From Coq Require Import List String.
+Import ListNotations.
+Open Scope string_scope.
+"""
+open(os.path.join(V, "coq/Model/PipelineRef.v"), "w").write(head + body)
